@@ -1,7 +1,7 @@
 """Baton-passing thread scheduler: real threads, exactly one runnable at a time, seeded choice of who runs.
 
-Pre-emption points are `line` events (and `opcode` events inside models_meta.py, home of the thread-local
-reference context) in frames of the package under test.  The interleaving is exactly the recorded switch list
+Pre-emption points are `line` events in frames of the package under test (opcode events were tried for the
+thread-local context code and dropped: CPython 3.12.1 crashes on them).  The interleaving is exactly the recorded switch list
 [(global step, to thread)], which can be replayed or minimised as an explicit list.
 """
 import sys
@@ -109,7 +109,8 @@ class Baton:
             if name == "generate_code":
                 self.in_generate_code[me] = True
             if fn == opfile:
-                frame.f_trace_opcodes = True
+                # NOTE: opcode-level tracing (frame.f_trace_opcodes) is deliberately NOT enabled: CPython 3.12.1
+                # segfaults when it meets an inlined comprehension in such a frame (seen with a seeded change)
                 if name == "__enter__":
                     ctx = frame.f_locals.get("self")
                     self.in_nonempty_ctx[me] = bool(getattr(ctx, "context", None))
